@@ -8,7 +8,7 @@ include!("img.rs");
 include!("store_common.rs");
 
 //@ harness: c10_foreign_delete_by_id
-//@ tier: quick
+//@ tier: thorough
 //@ timeout: 2400
 //@ mem: 20
 //@ covers: none
@@ -62,6 +62,102 @@ store_harness!(c10_foreign_delete_by_id, {
     let still = some!(ok!(store.get_event_by_id(Id::from_bytes(ID_B))));
     assert!(still.as_bytes().len() == nv && still.created_at().as_u64() == tv && still.pubkey() == Pubkey::from_bytes(PK_2));
     assert!(!ok!(store.event_is_deleted(Id::from_bytes(ID_B))));
+    core::mem::forget(store);
+});
+
+//@ harness: c10_foreign_id_after_own_target
+//@ tier: thorough
+//@ timeout: 3000
+//@ mem: 20
+//@ covers: none
+//@ unwindset: put_bytes=80; heed::bytes_=260; heed::Table=6; memcmp.0=70; repeat::Repeat=190; Repeat.*try_fold=190; mmap_append=200; read_hex=34; enc_tags=6; c10_foreign=70
+//@ cbmc: --max-field-sensitivity-array-size 1100
+//@ encodes: Store::handle_deletion_event (called as Store::store_event calls it, inside a write transaction that is dropped on error), Id::read_hex, Store::get_event_by_id, Store::remove_by_id, Lmdb::mark_deleted, Store::event_is_deleted
+//@ bounds: fresh store holding the requester's own event O (author A) and a victim V (author B), both kind 1; a deletion request by A (created_at arbitrary in 4096..=4351) names FIRST its own event O and THEN the victim V in two e tags: the request is refused as an invalid delete wherever the foreign target stands; after the transaction is dropped V and O are both still retrievable and neither id carries a deletion marker
+//@ outside: the earlier phases of store_event for the request itself; requests with more than two tags; address tags (c10_addr_names_its_author + c09_param_phase_other_author)
+store_harness!(c10_foreign_id_after_own_target, {
+    let store = verif_store();
+    let mut ob = [0u8; 160];
+    let no = enc_event_img(1, 900, &ID_C, &PK_1, &SIG_0, &[], b"", b"o", &mut ob);
+    let mut vb = [0u8; 160];
+    let nv = enc_event_img(1, 1000, &ID_B, &PK_2, &SIG_0, &[], b"", b"v", &mut vb);
+    let _ = seed_stored(&store, as_event(&ob[..no]));
+    let _ = seed_stored(&store, as_event(&vb[..nv]));
+    // ["e", hex(ID_C = c3 * 32)], ["e", hex(ID_B = b2 * 32)]
+    let mut pool = [0u8; 130];
+    pool[0] = b'e';
+    pool[65] = b'e';
+    let mut i = 0;
+    while i < 32 {
+        pool[1 + 2 * i] = b'c';
+        pool[2 + 2 * i] = b'3';
+        pool[66 + 2 * i] = b'b';
+        pool[67 + 2 * i] = b'2';
+        i += 1;
+    }
+    let lo: u8 = kani::any();
+    let td: u64 = 0x1000 + lo as u64;
+    let mut db = [0u8; 320];
+    let nd = enc_event_img(5, td, &ID_A, &PK_1, &SIG_0, &[&[1, 64], &[1, 64]], &pool, b"", &mut db);
+    let o = {
+        let mut txn = ok!(store.indexes.write_txn());
+        let r = store.handle_deletion_event(&mut txn, as_event(&db[..nd]));
+        let o = match r {
+            Ok(()) => Outcome::Stored,
+            Err(e) => {
+                let invalid = matches!(e.inner, InnerError::InvalidDelete);
+                core::mem::forget(e);
+                if invalid { Outcome::InvalidDelete } else { Outcome::Other }
+            }
+        };
+        // store_event returns the error with `?`: the transaction is dropped, not committed
+        drop(txn);
+        o
+    };
+    assert!(o == Outcome::InvalidDelete, "a request naming another author's event after an own target was not refused");
+    assert!(has(&store, &ID_B) && has(&store, &ID_C));
+    assert!(!ok!(store.event_is_deleted(Id::from_bytes(ID_B))));
+    assert!(!ok!(store.event_is_deleted(Id::from_bytes(ID_C))));
+    core::mem::forget(store);
+});
+
+//@ harness: c10_foreign_address_request
+//@ tier: quick
+//@ timeout: 700
+//@ mem: 20
+//@ covers: any
+//@ unwindset: put_bytes=80; heed::bytes_=260; heed::Table=6; memcmp.0=80; repeat::Repeat=190; Repeat.*try_fold=190; mmap_append=200; read_hex=34; enc_tags=6; c10_foreign=80; from_utf8=80; run_utf8_validation=80; splitn=80; next=80; position=80; parse=12; from_str=12
+//@ cbmc: --max-field-sensitivity-array-size 1100
+//@ encodes: Store::store_event (all phases for a kind-5 event), Store::handle_deletion_event (a tag: Addr::try_from_bytes, author comparison before marking), Lmdb::mark_naddr_deleted, Store::naddr_is_deleted_asof, heed model rollback
+//@ bounds: fresh store; a complete Store::store_event of a deletion request (kind 5, created_at arbitrary in 4096..=4351: one arbitrary byte) by author A whose only tag is an `a` tag naming the address 30023:<author B>:x of ANOTHER author: refused as an invalid delete; the request itself is not retrievable afterwards (its index entries were rolled back), B's address carries no deletion marker, and no durable commit carried an effective put/delete
+//@ outside: requests naming stored events of another author by id (thorough: c10_foreign_delete_by_id, c10_foreign_id_after_own_target); several tags
+store_harness!(c10_foreign_address_request, {
+    let store = verif_store();
+    // ["a", "30023:" + hex(PK_2 = 22 * 32) + ":x"]
+    let mut pool = [0u8; 73];
+    pool[0] = b'a';
+    put_bytes(&mut pool, 1, b"30023:");
+    let mut i = 0;
+    while i < 64 {
+        pool[7 + i] = b'2';
+        i += 1;
+    }
+    pool[71] = b':';
+    pool[72] = b'x';
+    let lo: u8 = kani::any();
+    let td: u64 = 0x1000 + lo as u64;
+    let env = crate::lmdb::verif_db_lmdb_helper::env_of(&store.indexes);
+    let commits = heed::verif::mutating_commits(env);
+    let mut db = [0u8; 250];
+    let nd = enc_event_img(5, td, &ID_A, &PK_1, &SIG_0, &[&[1, 72]], &pool, b"", &mut db);
+    let o = outcome(store.store_event(as_event(&db[..nd])));
+    kani::cover!(lo == 0);
+    assert!(o == Outcome::InvalidDelete, "a deletion request naming another author's address was not refused");
+    assert!(heed::verif::mutating_commits(env) == commits);
+    assert!(!has(&store, &ID_A));
+    let addr = Addr { kind: Kind::from_u16(30023), author: Pubkey::from_bytes(PK_2), d: vec![b'x'] };
+    assert!(ok!(store.naddr_is_deleted_asof(&addr)).is_none(), "a refused request left a deletion marker on another author's address");
+    core::mem::forget(addr);
     core::mem::forget(store);
 });
 
